@@ -4,6 +4,8 @@ import Proofs.Reshape
 import Proofs.Zip
 import Proofs.TensorWf
 import Mathlib.Analysis.Real.Sqrt
+import Proofs.Dims
+import Proofs.MaxDims
 
 /-!
 # C08 — announced layer shapes equal produced shapes; transitions lose nothing
@@ -308,5 +310,42 @@ theorem flatten_count (c h w : Nat) (d : V3 α) (hd : L.Dims3 d c h w) : (L.flat
 example : Conv.outputSize 5 6 4 (2, 3) (2, 1) (1, 0) (1, 2) = .ok (.triple 4 3 2) := by decide
 example : Conv.outputSize 2 2 1 (3, 3) (1, 1) (0, 0) (1, 1) = .error .arith := by decide
 example : Deconv.outputSize 2 2 1 (3, 3) (1, 1) (1, 1) = .ok (.triple 1 2 2) := by decide
+
+
+/-! ### produced extents of the scatter-form passes: what they write into keeps its announced shape -/
+
+/-- the deconvolution's forward scatter produces exactly `filters × oh × ow` -/
+theorem deconv_produced_extent (x : V3 α) (ks : List (V3 α)) (kf kc : Nat) (tp : List (Nat × Nat × Nat × Nat × Nat × Nat)) (oh ow : Nat) :
+    L.Dims3 (Deconv.scatter x ks kf kc tp oh ow) kf oh ow :=
+  DimsLemmas.deconv_scatter_dims x ks kf kc tp oh ow
+
+/-- **gradient shapes equal the shapes of what they are gradients of**, for every configuration:
+    the convolution's input gradient has the input's extents (the padded scatter, then the crop) … -/
+theorem conv_input_gradient_shape (l : Conv α) (ks : List (V3 α)) (delta : V3 α) (kf kc kh kw oh ow ih iw : Nat) :
+    L.Dims3 (Conv.crop l (Conv.paddedInputGrad l ks delta kf kc kh kw oh ow (ih + 2 * l.padding.1) (iw + 2 * l.padding.2)) ih iw) kc ih iw :=
+  DimsLemmas.conv_crop_dims l _ kc ih iw (DimsLemmas.conv_paddedInputGrad_dims l ks delta kf kc kh kw oh ow _ _)
+
+/-- … its kernel gradient the kernels' extents `filters × channels × kh × kw` … -/
+theorem conv_kernel_gradient_shape (l : Conv α) (xp delta : V3 α) (kf kc kh kw oh ow ph pw : Nat) :
+    L.Dims4 (Conv.kernelGrad l xp delta kf kc kh kw oh ow ph pw) kf kc kh kw :=
+  DimsLemmas.conv_kernelGrad_dims l xp delta kf kc kh kw oh ow ph pw
+
+/-- … and the deconvolution's gradients the input's and the kernels' extents -/
+theorem deconv_gradient_shapes (x : V3 α) (ks : List (V3 α)) (delta : V3 α) (kf kc kh kw ih iw : Nat)
+    (tp : List (Nat × Nat × Nat × Nat × Nat × Nat)) :
+    L.Dims3 (Deconv.gradPass x ks delta kf kc kh kw ih iw tp).1 kc ih iw ∧
+    L.Dims4 (Deconv.gradPass x ks delta kf kc kh kw ih iw tp).2 kf kc kh kw :=
+  DimsLemmas.deconv_gradPass_dims x ks delta kf kc kh kw ih iw tp
+
+/-- **a max-pool that returns at all returns exactly the announced output shape** (the window maxima are
+    written into `channels × oh × ow` zeros by index updates) … -/
+theorem maxpool_forward_shape (l : Maxpool α) (x pre post : Tensor α) (mx : MaxIdx)
+    (h : l.forward x = .ok (pre, post, mx)) : pre.shape = l.outputs :=
+  DimsLemmas.maxpool_forward_dims l x pre post mx h
+
+/-- … and its input gradient has exactly the announced input shape -/
+theorem maxpool_gradient_shape (l : Maxpool α) (g t : Tensor α) (mx : MaxIdx)
+    (h : l.backward g mx = .ok t) : t.shape = l.inputs :=
+  DimsLemmas.maxpool_backward_dims l g t mx h
 
 end C08
